@@ -3,7 +3,8 @@ visor.Visor on real bolt files), one driver (drv_ledger = the Lean ledger model)
 theorem files, generator profile and verdict filter."""
 import re
 
-LEDGER_MODEL = ["Sky/Ledger/Model.lean", "Sky/Ledger/Lemmas.lean", "Sky/Ledger/Supply.lean", "Sky/Ledger/Run.lean",
+LEDGER_MODEL = ["Sky/Ledger/Model.lean", "Sky/Ledger/Lemmas.lean", "Sky/Ledger/Create.lean", "Sky/Ledger/Arb.lean",
+                "Sky/Ledger/Supply.lean", "Sky/Ledger/Run.lean",
                 "Sky/Ledger/Xor.lean", "Sky/Ledger/Drv.lean", "Sky/C31/Spec.lean"]
 
 TRUSTED = [
@@ -18,9 +19,9 @@ TRUSTED = [
 ]
 
 ASSUME = [
-    "theorems are for the non-arbitrating configuration (every node but the block publisher); the arbitrating publisher is "
-    "covered by the correspondence only",
+    "theorems cover both node configurations (ordinary node and arbitrating block publisher)",
     "WfSound: a transaction the real Transaction.Verify() accepts has pairwise distinct inputs (C09's rule set)",
+    "HashInj: distinct transactions of ONE block have distinct hashes (SHA-256 collision freeness on that finite set)",
 ]
 
 
